@@ -234,6 +234,94 @@ def rule_write_census(rep: Report, repo: Repo, rule: str) -> None:
                   witness="cminx -o out dir/   writes outside out/")
 
 
+def _may_precede(a: ast.AST, b: ast.AST, parents, fn) -> bool:
+    """Structured-program order: can statement-level node `a` execute before `b` on one path?  True when, in the lowest
+    block they share, a's ancestor statement stands before b's; False when they sit in different arms of one `if`/`try`
+    or a's ancestor comes later."""
+    def chain(n):
+        out = []
+        while n is not None and n is not fn:
+            p = parents.get(n)
+            out.append((p, n))
+            n = p
+        return out
+    ca, cb = chain(a), chain(b)
+    anc_b = {id(p): child for p, child in cb}
+    for p, child_a in ca:
+        if id(p) in anc_b:
+            child_b = anc_b[id(p)]
+            if child_a is child_b:
+                return False
+            for field in ("body", "orelse", "finalbody", "handlers"):
+                blk = getattr(p, field, None)
+                if isinstance(blk, list) and any(x is child_a for x in blk) and any(x is child_b for x in blk):
+                    ia = next(i for i, x in enumerate(blk) if x is child_a)
+                    ib = next(i for i, x in enumerate(blk) if x is child_b)
+                    return ia < ib
+            # different fields of the same compound statement: if-body vs orelse are exclusive; a test precedes its body
+            if isinstance(p, ast.If):
+                return False
+            if isinstance(p, ast.Try):
+                return any(x is child_a for x in p.body)
+            return False
+    return False
+
+
+def rule_listing_before_creation(rep: Report, repo: Repo, rule: str) -> None:
+    """C13-R6: on the directory path of document() nothing is created before the walk lists the input tree; inside the walk
+    the creations of one iteration follow that iteration's listing by construction (os.walk lists, then the body runs)."""
+    rep.rule(rule, "in document(), no call that creates a file-system entry can execute before the os.walk loop on the same "
+                   "path: the set of processed directories is the input tree as found, not as modified by this run")
+    dm = DocumentModel(repo)
+    where = f"{MOD}:document"
+    n = 0
+    for mod, q, fn, c, kind in write_sites(repo):
+        if mod != MOD or q != "document" or kind in ("delete",):
+            continue
+        n += 1
+        inside = any(x is c for x in ast.walk(dm.walk))
+        if inside:
+            rep.ok(rule, where, norm(c)[:70] + " [inside the walk]")
+            continue
+        rep.check(not _may_precede(c, dm.walk, dm.parents, dm.fn), rule, where, norm(c)[:70] + " [before the walk?]",
+                  "the output directory is created before the input tree is listed: an output location nested in the input "
+                  "directory is walked like an input subdirectory and receives an index.rst of its own",
+                  witness="cminx -r -o tree/docs tree   (tree/docs not existing before; auto-exclusion off)")
+    rep.floor(rule, 2, "creating calls of document()")
+
+
+def rule_index_always_written(rep: Report, repo: Repo, rule: str) -> None:
+    """Every directory whose walk iteration reaches the index block writes its index.rst: the write is conditional on the
+    output directory only (a `continue` at the top level of the walk body skips the whole directory and is not a condition
+    of the write)."""
+    rep.rule(rule, "inside the walk, index.write_to_file(...) is guarded by 'output directory is set' only: a processed "
+                   "directory never lacks the index.rst its parent's toctree refers to")
+    dm = DocumentModel(repo)
+    where = f"{MOD}:document"
+    n = 0
+    inside = {id(x) for x in ast.walk(dm.walk)}
+    for c in calls_in(dm.walk):
+        if isinstance(c.func, ast.Attribute) and c.func.attr == "write_to_file":
+            n += 1
+            for g in guards_of(dm.fn, c, dm.parents):
+                if id(g.test) not in inside:
+                    continue
+                if is_out_guard(g.test, g.polarity, dm.out_aliases):
+                    continue
+                if g.kind == "early-exit":
+                    iff = dm.parents.get(g.test)
+                    if isinstance(iff, ast.If) and any(x is iff for x in dm.walk.body):
+                        continue
+                rep.bad(rule, where, f"index write under `{'' if g.polarity else 'not '}{norm(g.test)[:70]}`",
+                        "index.rst is written only under a further condition: the directory's pages are still produced and the "
+                        "parent's toctree still lists <dir>/index.rst, which is then missing",
+                        witness="-r with auto_exclude_directories_without_cmake: false and an empty leaf directory")
+            rep.ok(rule, where, norm(c)[:80])
+    if n == 0:
+        raise AnalysisError("anchor vanished: the walk body of document() never calls write_to_file")
+    rep.floor(rule, 1, "index write sites")
+
+
 def _rooted_at(e: ast.expr, aliases: Set[str], fn, depth=0) -> bool:
     """Path expression is <alias> | join(<rooted>, clean...) | a local whose every
     assignment is rooted."""
@@ -483,6 +571,175 @@ def rule_no_nondeterminism(rep: Report, repo: Repo, rule: str) -> None:
     rep.floor(rule, 8, "content/order sinks")
 
 
+def rule_mode_independence(rep: Report, repo: Repo, rule: str) -> None:
+    """Which directories and files are processed does not depend on whether (or where) output is written."""
+    rep.rule(rule, "inside the walk, no pruning, filtering, skipping or page production is conditional on the output directory: "
+                   "stdout mode prints exactly the pages the -o run writes")
+    dm = DocumentModel(repo)
+    where = f"{MOD}:document"
+
+    def mentions_out(e: ast.expr) -> bool:
+        return any((isinstance(x, ast.Name) and x.id in dm.out_aliases) or is_output_dir_expr(x) for x in ast.walk(e))
+    n = 0
+    lists = (dm.dirs_var, dm.files_var)
+    for node in walk_no_nested(dm.walk):
+        what = None
+        if isinstance(node, (ast.Continue, ast.Break)):
+            what = "continue" if isinstance(node, ast.Continue) else "break"
+        elif isinstance(node, ast.Call) and isinstance(node.func, ast.Attribute) and node.func.attr in MUTATING \
+                and norm(node.func.value) in lists:
+            what = norm(node)[:50]
+        elif isinstance(node, ast.Call) and call_name(node).endswith("document_single_file"):
+            what = "document_single_file(...)"
+        elif isinstance(node, ast.Assign) and any(norm(t) in lists or (isinstance(t, ast.Subscript) and norm(t.value) in lists)
+                                                  for t in node.targets):
+            what = norm(node)[:50]
+        elif isinstance(node, ast.Delete) and any(norm(getattr(t, "value", t)) in lists for t in node.targets):
+            what = norm(node)[:50]
+        if what is None:
+            continue
+        n += 1
+        gs = [g for g in guards_of(dm.fn, node, dm.parents) if any(g.test is x for x in ast.walk(dm.walk))]
+        dep = [g for g in gs if mentions_out(g.test)]
+        rep.check(not dep, rule, where, what,
+                  f"`{what}` happens only under a condition on the output directory (`{norm(dep[0].test)[:60] if dep else ''}`): the set of "
+                  f"processed directories differs between stdout mode and -o mode",
+                  witness="cminx -r tree   vs   cminx -r -o tree/doc tree  with a source directory tree/doc_helpers")
+    rep.floor(rule, 6, "processing decisions in the walk")
+
+
+def rule_walk_root_absolute(rep: Report, repo: Repo, rule: str) -> None:
+    rep.rule(rule, "os.walk starts at the absolute input path (the same string the exclusion test and relpath use), not at the "
+                   "path as typed")
+    dm = DocumentModel(repo)
+    arg = dm.walk.iter.args[0] if dm.walk.iter.args else next((k.value for k in dm.walk.iter.keywords if k.arg == "top"), None)
+    if arg is None:
+        raise AnalysisError("os.walk call without root argument")
+    facts = _path_facts_at(dm.fn, dm.walk, arg, dm.fn.args.args[0].arg)
+    rep.check("abs" in facts, rule, f"{MOD}:document", f"os.walk({norm(arg)}, ...)",
+              "the walk yields roots relative to the working directory: anchored exclude patterns match or not depending on where "
+              "CMinx was started, and relpath(root, input_path) mixes relative and absolute paths",
+              witness="cd tree && cminx -r -e sub/skip.cmake .   vs   cminx -r -e sub/skip.cmake tree")
+    rep.floor(rule, 1, "walk root")
+
+
+PATTERN_APIS = {"glob.glob": 0, "glob.iglob": 0, "fnmatch.fnmatch": 1, "fnmatch.fnmatchcase": 1, "fnmatch.filter": 1,
+                "re.compile": 0, "re.match": 0, "re.search": 0, "re.fullmatch": 0, "re.sub": 0, "re.split": 0, "re.findall": 0}
+
+
+def rule_no_location_as_pattern(rep: Report, repo: Repo, rule: str) -> None:
+    """An absolute path must never be *interpreted* (glob / fnmatch / regular expression): characters of the tree's location
+    would then change which files are found."""
+    rep.rule(rule, "no glob / fnmatch / regular-expression API receives a pattern built from the absolute input location "
+                   "(glob.escape / re.escape of that part is accepted)")
+    dm = DocumentModel(repo)
+    n = 0
+    for fn_name, flow in (("document", dm.flow_document()), ("document_single_file", dm.flow_single())):
+        for r in flow.calls:
+            short = r.name.split(".")[-1]
+            pos = PATTERN_APIS.get(r.name)
+            if pos is None and short in ("glob", "rglob") and isinstance(r.node.func, ast.Attribute):
+                pos = 0
+            if pos is None:
+                continue
+            n += 1
+            if pos >= len(r.args):
+                continue
+            arg = r.node.args[pos]
+            escaped = any(isinstance(x, ast.Call) and call_name(x) in ("glob.escape", "re.escape") for x in ast.walk(arg))
+            rep.check(ABS not in r.args[pos] or escaped, rule, f"{MOD}:{fn_name}", norm(r.node)[:80],
+                      "the absolute location of the input tree is interpreted as a pattern: a '[' or '*' in a parent directory's "
+                      "name changes which files are found, so moving the tree changes the output",
+                      witness="input tree below a directory named 'build[1]'")
+    rep.ok(rule, f"{MOD}", f"{n} pattern-interpreting call(s) examined")
+
+
+def _set_valued(e: ast.expr, names: Set[str]) -> bool:
+    if isinstance(e, ast.SetComp) or (isinstance(e, ast.Set)):
+        return True
+    if isinstance(e, ast.Call) and call_name(e) in ("set", "frozenset"):
+        return True
+    if isinstance(e, ast.Call) and isinstance(e.func, ast.Attribute) and e.func.attr in (
+            "union", "intersection", "difference", "symmetric_difference", "copy") and _set_valued(e.func.value, names):
+        return True
+    if isinstance(e, ast.Call) and isinstance(e.func, ast.Attribute) and e.func.attr == "keys":
+        return False
+    if isinstance(e, ast.BinOp) and isinstance(e.op, (ast.BitOr, ast.BitAnd, ast.Sub, ast.BitXor)):
+        return _set_valued(e.left, names) or _set_valued(e.right, names)
+    if isinstance(e, ast.Name):
+        return e.id in names
+    if isinstance(e, ast.Attribute) and isinstance(e.value, ast.Name) and e.value.id == "self":
+        return ("self." + e.attr) in names
+    return False
+
+
+ORDER_SENSITIVE_CALLS = {"list", "tuple", "enumerate", "str", "repr", "print", "iter", "next", "zip", "map", "filter", "reversed"}
+ORDER_FREE_CALLS = {"sorted", "len", "any", "all", "min", "max", "sum", "set", "frozenset", "bool", "isinstance"}
+
+
+def _set_order_hits(fn, parents) -> List[Tuple[ast.expr, str]]:
+    names: Set[str] = set()
+    for _ in range(3):
+        for n in ast.walk(fn):
+            tgt = val = None
+            if isinstance(n, ast.Assign) and len(n.targets) == 1:
+                tgt, val = n.targets[0], n.value
+            elif isinstance(n, ast.AnnAssign) and n.value is not None:
+                tgt, val = n.target, n.value
+            if tgt is not None and _set_valued(val, names):
+                if isinstance(tgt, ast.Name):
+                    names.add(tgt.id)
+                elif isinstance(tgt, ast.Attribute) and isinstance(tgt.value, ast.Name) and tgt.value.id == "self":
+                    names.add("self." + tgt.attr)
+    out: List[Tuple[ast.expr, str]] = []
+    for n in ast.walk(fn):
+        cands: List[Tuple[ast.expr, str]] = []
+        if isinstance(n, (ast.For, ast.AsyncFor)):
+            cands.append((n.iter, "for loop"))
+        elif isinstance(n, (ast.ListComp, ast.GeneratorExp, ast.DictComp)):
+            par = parents.get(n)
+            free = isinstance(par, ast.Call) and call_name(par) in ORDER_FREE_CALLS
+            if not free:
+                cands.extend((g.iter, "comprehension") for g in n.generators)
+        elif isinstance(n, ast.Call):
+            nm = call_name(n)
+            short = nm.split(".")[-1]
+            if nm in ORDER_SENSITIVE_CALLS or short in ("join", "extend", "text", "write", "format"):
+                cands.extend((a, f"{short}()") for a in n.args)
+        elif isinstance(n, ast.FormattedValue):
+            cands.append((n.value, "f-string"))
+        elif isinstance(n, ast.Starred):
+            cands.append((n.value, "unpacking"))
+        out.extend((e, how) for e, how in cands if _set_valued(e, names))
+    return out
+
+
+def rule_no_set_order(rep: Report, repo: Repo, rule: str) -> None:
+    """The iteration order of a set (hash-seed dependent for str elements) never becomes visible: package-wide scan of every
+    consumer of a set-valued expression."""
+    rep.rule(rule, "no set-valued expression (set display/comprehension, set()/frozenset(), set algebra, or a name bound to one) "
+                   "is iterated, joined, listed or formatted without sorted(): set order depends on the hash seed")
+    n_sets = 0
+    for mod in HAND_WRITTEN:
+        m = repo.module(mod)
+        for q, fn in repo.functions(mod):
+            for e, how in _set_order_hits(fn, m.parents):
+                n_sets += 1
+                rep.bad(rule, f"{mod}:{q}", f"{how} over {norm(e)[:70]}",
+                        "the order of a set reaches the output: with two or more elements it changes with PYTHONHASHSEED",
+                        witness="cpp_class(C A B) rendered under PYTHONHASHSEED=0 and =42")
+    # positive control
+    import os
+    from ..core import VERIF_DIR
+    ctree = ast.parse(open(os.path.join(VERIF_DIR, "controls", "set_order.py")).read())
+    cpar = {ch: p for p in ast.walk(ctree) for ch in ast.iter_child_nodes(p)}
+    hits = sum(len(_set_order_hits(f, cpar)) for f in ast.walk(ctree) if isinstance(f, ast.FunctionDef))
+    if hits != 4:
+        raise AnalysisError(f"positive control controls/set_order.py: {hits} hits, expected 4 (and none in the order-free twin)")
+    rep.ok(rule, "controls/set_order.py", "positive control matched 4 order-sensitive consumers, 0 in the order-free twin")
+    rep.ok(rule, "package", f"{n_sets} order-sensitive set consumer(s) in {len(HAND_WRITTEN)} modules")
+
+
 # ----------------------------------------------------------------------
 # loops: mutation while iterating, pruning, match sites
 
@@ -631,18 +888,28 @@ def rule_match_sites(rep: Report, repo: Repo, rule: str) -> None:
                 roles["dir"] = (c, inner[0])
             elif dm.files_var in it and roles["file"] is None:
                 roles["file"] = (c, inner[0])
-    # input path: match guards an early return
+    # input path: match guards an early return; the matched string is the absolute path, with a trailing separator when it
+    # is a directory (the same form the walk uses for what lies below it)
     c = roles["input"]
     ok = False
+    form_msg = ""
     if c is not None:
         st = dm.parents.get(c)
         while st is not None and not isinstance(st, ast.If):
             st = dm.parents.get(st)
         if isinstance(st, ast.If) and st in dm.fn.body and terminates(st.body) and not st.orelse \
                 and any(isinstance(x, ast.Return) for x in st.body):
-            ok = "input_path" in norm(c.args[0]) or "input_file" in norm(c.args[0])
-    rep.check(ok, rule, where, "if spec.match_file(<input path>): return",
-              "an excluded input path is not rejected up front", witness="cminx -e sub/ -r sub/")
+            facts = _path_facts_at(dm.fn, st, c.args[0], dm.fn.args.args[0].arg)
+            ok = "abs" in facts and "dirslash" in facts
+            if "input" not in facts:
+                form_msg = "the string matched is not derived from the input path"
+            elif "abs" not in facts:
+                form_msg = ("the input path is matched as typed, not as absolute path: whether it is excluded depends on how "
+                            "the caller spelled it (patterns naming a parent directory, or an absolute path, never match)")
+            elif "dirslash" not in facts:
+                form_msg = "an input directory is matched without trailing separator: directory-only patterns ('build/') do not reject it"
+    rep.check(ok, rule, where, "if spec.match_file(<absolute input path, '/'-terminated for a directory>): return",
+              form_msg or "an excluded input path is not rejected up front", witness="cd vendor && cminx -e vendor/ lib.cmake")
     # directory match: path = join(root, join(subdir, '')) ; matched entry removed from the dirs list
     d = roles["dir"]
     ok = False
@@ -712,7 +979,89 @@ def rule_match_sites(rep: Report, repo: Repo, rule: str) -> None:
             ok = True
     rep.check(ok, rule, f"{MOD}:main", "settings_obj.input.exclude_filters = list(settings['input']['exclude_filters'].all_contents())",
               "exclude patterns are not collected from all configuration sources", witness="-e a -s file-with-b")
+    # the command-line patterns enter the list as typed: the same pattern means the same from every source
+    n_e = 0
+    for c in calls_in(mfn):
+        if isinstance(c.func, ast.Attribute) and c.func.attr == "add_argument":
+            kw = {k.arg: k.value for k in c.keywords if k.arg}
+            dest = kw.get("dest")
+            if isinstance(dest, ast.Constant) and dest.value == "input.exclude_filters":
+                n_e += 1
+                t = kw.get("type")
+                okt = t is None or norm(t) == "str"
+                oka = isinstance(kw.get("action"), ast.Constant) and kw["action"].value == "append" and "nargs" not in kw \
+                    and "choices" not in kw and "const" not in kw
+                rep.check(okt, rule, f"{MOD}:main", f"-e option: type={norm(t) if t is not None else None}",
+                          "patterns given with -e are converted before use, patterns from configuration files are not: the same "
+                          "pattern excludes different files depending on which source supplied it", witness="-e 'test*/'  vs  exclude_filters: ['test*/']")
+                rep.check(oka, rule, f"{MOD}:main", "-e option: action='append', one pattern per occurrence",
+                          "-e does not collect one verbatim pattern per occurrence")
+    rep.check(n_e == 1, rule, f"{MOD}:main", f"{n_e} option(s) feed input.exclude_filters", "the -e option is missing or duplicated")
     rep.floor(rule, 6, "match sites")
+
+
+def _path_facts(e: ast.expr, env: Dict[str, FrozenSet[str]]) -> FrozenSet[str]:
+    if isinstance(e, ast.Name):
+        return env.get(e.id, frozenset())
+    if isinstance(e, ast.Call):
+        nm = call_name(e)
+        if nm in ("os.path.abspath", "os.path.realpath") and e.args:
+            return (_path_facts(e.args[0], env) - {"dirslash"}) | ({"abs"} if "input" in _path_facts(e.args[0], env) else frozenset())
+        if nm == "os.path.join" and len(e.args) >= 2:
+            first = _path_facts(e.args[0], env)
+            if all(isinstance(a, ast.Constant) and a.value == "" for a in e.args[1:]):
+                return first | {"dirslash"}
+            return frozenset()
+        if nm in ("os.path.normpath", "os.path.normcase", "str", "os.fspath") and e.args:
+            f = _path_facts(e.args[0], env)
+            return f - {"dirslash"} if nm == "os.path.normpath" else f
+        return frozenset()
+    if isinstance(e, ast.BinOp) and isinstance(e.op, ast.Add):
+        r = norm(e.right)
+        if r in ("os.sep", "'/'", "os.path.sep"):
+            return _path_facts(e.left, env) | {"dirslash"}
+    return frozenset()
+
+
+def _path_facts_at(fn, stop_stmt, expr: ast.expr, input_param: str) -> FrozenSet[str]:
+    """Facts about a path expression at `stop_stmt` (a top-level statement of fn): 'input' derived from the input parameter,
+    'abs' made absolute, 'dirslash' '/'-terminated when it is a directory."""
+    env: Dict[str, FrozenSet[str]] = {input_param: frozenset({"input"})}
+
+    def run(stmts, env):
+        for st in stmts:
+            if st is stop_stmt:
+                return env, True
+            if isinstance(st, ast.Assign) and len(st.targets) == 1 and isinstance(st.targets[0], ast.Name):
+                env = dict(env)
+                env[st.targets[0].id] = _path_facts(st.value, env)
+            elif isinstance(st, ast.AnnAssign) and isinstance(st.target, ast.Name) and st.value is not None:
+                env = dict(env)
+                env[st.target.id] = _path_facts(st.value, env)
+            elif isinstance(st, ast.If):
+                e1, hit = run(st.body, env)
+                if hit:
+                    return e1, True
+                e2, hit = run(st.orelse, env)
+                if hit:
+                    return e2, True
+                isdir_of = None
+                if isinstance(st.test, ast.Call) and call_name(st.test) == "os.path.isdir" and st.test.args and isinstance(st.test.args[0], ast.Name):
+                    isdir_of = st.test.args[0].id
+                merged = {}
+                for k in set(e1) | set(e2):
+                    a, b = e1.get(k, frozenset()), e2.get(k, frozenset())
+                    m = a & b
+                    if isdir_of is not None and "input" in env.get(isdir_of, frozenset()) and "dirslash" in a:
+                        m = m | {"dirslash"}       # '/'-terminated on the branch where the input is a directory
+                    merged[k] = m
+                if not terminates(st.body):
+                    env = merged if not (st.orelse and terminates(st.orelse)) else e1
+                elif not (st.orelse and terminates(st.orelse)):
+                    env = e2
+        return env, False
+    env, _hit = run(fn.body, env)
+    return _path_facts(expr, env)
 
 
 def _guarded_removals(loop: ast.For, match_call: ast.Call, list_var: str, elem_var: str, dm: DocumentModel) -> bool:
@@ -828,10 +1177,20 @@ def loop_source(loop: ast.For, dm: DocumentModel, emission_calls=()):
             unknown.append("filter(" + norm(e.args[0]) + ")")
             return resolve(e.args[1], depth + 1)
         if isinstance(e, ast.Name) and e.id not in (dm.files_var, dm.dirs_var):
-            defs = [n.value for n in walk_no_nested(dm.walk) if isinstance(n, ast.Assign) and len(n.targets) == 1
+            defs = [n for n in walk_no_nested(dm.walk) if isinstance(n, ast.Assign) and len(n.targets) == 1
                     and isinstance(n.targets[0], ast.Name) and n.targets[0].id == e.id]
             if len(defs) == 1:
-                return resolve(defs[0], depth + 1)
+                return resolve(defs[0].value, depth + 1)
+            if len(defs) > 1:
+                # reaching definition: the last unconditional assignment at the top level of the walk body before the loop
+                # kills the earlier ones, provided no other assignment stands between it and the loop
+                li = dm.walk_body_index(loop)
+                idx = {id(d): dm.walk_body_index(d) for d in defs}
+                top = [d for d in defs if any(d is st for st in dm.walk.body) and li is not None and idx[id(d)] < li]
+                if top:
+                    last = max(top, key=lambda d: idx[id(d)])
+                    if not any(idx[id(d)] is not None and idx[id(last)] < idx[id(d)] <= li for d in defs if d is not last):
+                        return resolve(last.value, depth + 1)
         return norm(e)
 
     base = resolve(loop.iter)
